@@ -15,7 +15,7 @@ let parse_value (tk : string array) (pos : int ref) : jv =
     | "U" -> JUndef | "Z" -> JNull | "T" -> JTrue | "F" -> JFalse
     | "N" -> JNat (n_of_string (next ()))
     | "I" -> JInt (z_of_string (next ()))
-    | "R" -> JReal (z_of_string (next ()))
+    | "R" -> jv_of_numeral (units (next ()))   (* the JSON numeral; Digit::StringToNumber (model) decides kind and bits *)
     | "S" -> JStr (units (next ()))
     | "A" -> let c = int_of_string (next ()) in JArr (List.init c (fun _ -> value ()))
     | "O" -> let c = int_of_string (next ()) in
